@@ -109,6 +109,24 @@ func suitePage(t *testing.T, cfg cfgT) {
 		emitted++
 		e.close()
 	}
+	{ // a malformed page token is a client error - whatever its length (a UUID has 36 characters)
+		e := newEnv(t, driver.WithNamespaces(nsList(stNamespaces...)))
+		its, _ := e.reg.Mapper().FromTuple(ctx, &ketoapi.RelationTuple{Namespace: "n", Object: "o", Relation: "r", SubjectID: strp("u")})
+		_ = e.reg.RelationTupleManager().WriteRelationTuples(ctx, its...)
+		for _, tok := range []string{"zzz", "123", "6df0ce80-8b1d-460e-851b-889db595b00z", "not-a-uuid-but-36-characters-long-xx", "zzzzzzzz-zzzz-zzzz-zzzz-zzzzzzzzzzzz",
+			"6df0ce808b1d460e851b889db595b00z", "6df0ce80-8b1d-460e-851b-889db595b00", "6df0ce80-8b1d-460e-851b-889db595b00aa"} {
+			code, _ := rest(e.read, "GET", "/relation-tuples?namespace=n&page_token="+url.QueryEscape(tok), nil)
+			_, gerr := rts.NewReadServiceClient(e.rconn).ListRelationTuples(ctx, &rts.ListRelationTuplesRequest{RelationQuery: &rts.RelationQuery{}, PageToken: tok})
+			obs := "complete"
+			if code != 400 || grpcCode(gerr) != 400 {
+				obs = fmt.Sprintf("malformed token answered REST %d gRPC %d", code, grpcCode(gerr))
+			}
+			out.emit("pinternal malformed-token "+hx(tok), obs)
+			out.stat("internal.bad_token")
+			emitted++
+		}
+		e.close()
+	}
 	for emitted < cfg.n {
 		hr := r.fork()
 		e := newEnv(t, driver.WithNamespaces(nsList(stNamespaces...)))
